@@ -1,3 +1,3 @@
 THEOREMS = ["Pt.distribute_sound", "Pt.can_dist_is_linear", "Pt.tableCanDist_linear", "Pt.distribute_sound_table",
             "Pt.not_linear_scalar_over_array", "Pt.einsum_add", "Pt.einsum_sub", "Pt.einsum_smul", "Pt.einsum_muls",
-            "Pt.einsum_div_scalar", "Pt.einsum_lincomb", "Pt.distribute_ctx_sound"]
+            "Pt.einsum_div_scalar", "Pt.einsum_lincomb", "Pt.distribute_ctx_sound", "Pt.noBroadcast_sound"]
